@@ -195,12 +195,19 @@ def check_log(eng, st, tables):
     events.sort(key=lambda x: x[0])
     viol = []
     before = {}; after = {}
+    phase = None
     matched = 0
     for seq, typ, kind, table, pk in events:
         key = (kind, table, pk)
         if typ == 'before':
+            # a before_* call that follows after_* calls opens a new flush round (also a nested one, started by a query
+            # inside an after hook): the statements of the earlier round are all done, so its before_* calls that were
+            # followed by no statement (nothing to write) cannot belong to a statement of this round
+            if phase == 'after': before.clear()
+            phase = 'before'
             before[key] = before.get(key, 0) + 1
         elif typ == 'stmt':
+            phase = 'stmt'
             n = before.pop(key, 0)
             if n != 1: viol.append({'kind': 'statement_with_%d_before_hooks' % n, 'stmt': kind, 'table': table, 'pk': pk, 'seq': seq})
             else: matched += 1
@@ -210,6 +217,7 @@ def check_log(eng, st, tables):
             if after.get(key): eng.c('hooks.nested_flush_statement_before_pending_after_hook')
             after[key] = after.get(key, 0) + 1
         elif typ == 'after':
+            phase = 'after'
             # the round that called this object's before_* hook is over; if no statement followed (no column changed)
             # that before_* call is not judged and must not be counted against a statement of the next round
             before.pop(key, None)
